@@ -119,6 +119,10 @@ INVALID_SETTINGS = [
     {"LANGUAGE_DETECTION_CONFIDENCE_THRESHOLD": 1.5}, {"LANGUAGE_DETECTION_CONFIDENCE_THRESHOLD": -0.1},
     {"LANGUAGE_DETECTION_CONFIDENCE_THRESHOLD": "0.5"}, {"CACHE_SIZE_LIMIT": "10"}, {"CACHE_SIZE_LIMIT": 1.5},
     {"DATE_ORDER": "DMY", "BOGUS": True},
+    {"LANGUAGE_DETECTION_CONFIDENCE_THRESHOLD": float("nan")}, {"LANGUAGE_DETECTION_CONFIDENCE_THRESHOLD": float("inf")},
+    {"LANGUAGE_DETECTION_CONFIDENCE_THRESHOLD": float("-inf")}, {"LANGUAGE_DETECTION_CONFIDENCE_THRESHOLD": True}, {"CACHE_SIZE_LIMIT": float("nan")},
+    {"DATE_ORDER": "dmy"}, {"DATE_ORDER": "DDM"}, {"PREFER_DATES_FROM": "PAST"}, {"DEFAULT_LANGUAGES": [1]},
+    {"TIMEZONE": "Mars/Olympus"}, {"TIMEZONE": ""}, {"TO_TIMEZONE": "nope"}, {"TIMEZONE": "UTC+25:00"},
 ]
 # (valid dict, wrongly typed dict whose values print / compare / hash like the valid ones): "an invalid setting is rejected
 # whatever the date string is" must also hold after the valid twin (or the invalid dict itself, or any other valid dict)
@@ -250,7 +254,10 @@ def run_case(sub, c):
         if o[0] == "exc" and (o[1] == "SettingValidationError" or (o[1] == "TypeError" and None in st.values())):
             # a None value is rejected with TypeError (pinned by tests/test_settings.py): a wrongly typed argument
             return "rejected", True, None
-        return "bad", True, {"cls": {"form": "invalid-settings", "setting": sorted(st)[0], "kind": "accepted" if o[0] == "ok" else o[1]},
+        cls = {"form": "invalid-settings", "setting": sorted(st)[0], "kind": "accepted" if o[0] == "ok" else o[1]}
+        if sorted(st)[0] in ("TIMEZONE", "TO_TIMEZONE") and isinstance(st[sorted(st)[0]], str):
+            cls["value"] = "unknown zone name"
+        return "bad", True, {"cls": cls,
                              "expected": "SettingValidationError", "observed": o[1:] if o[0] == "exc" else "returned", "detail": {"settings": st, "string": c["s"]}}
     if sub == "invalid-after-valid":
         valid, st = TWINS[c["twin"]]
